@@ -175,6 +175,63 @@ fn rss_mb(pid: Option<u32>) -> u64 {
     std::fs::read_to_string(path).ok().and_then(|s| s.split_whitespace().nth(1).and_then(|x| x.parse::<u64>().ok())).map(|pages| pages * 4096 / (1 << 20)).unwrap_or(0)
 }
 
+/// Supervisor for the isolated re-run of a saved case (properties that state termination): the case
+/// runs in a child process with nothing else going on; exit code 1 (VIOLATION) only if that child
+/// again exceeds the time limit or the memory budget, otherwise 2 (inconclusive).
+pub fn supervise_isolated(ctx: &Ctx, file: &std::path::Path) -> i32 {
+    let exe = std::env::current_exe().unwrap();
+    let mut child = match std::process::Command::new(exe)
+        .arg(&ctx.property)
+        .arg("--replay")
+        .arg(file)
+        .arg("--root")
+        .arg(&ctx.root)
+        .stdout(std::process::Stdio::null())
+        .stderr(std::process::Stdio::null())
+        .spawn()
+    {
+        Ok(c) => c,
+        Err(e) => {
+            println!("INCONCLUSIVE property={} cannot spawn the isolated re-run: {}", ctx.property, e);
+            return 2;
+        }
+    };
+    let t0 = Instant::now();
+    loop {
+        match child.try_wait() {
+            Ok(Some(st)) => {
+                // a child killed by a signal (abort after a failed allocation under the address-space limit)
+                use std::os::unix::process::ExitStatusExt;
+                if st.signal().is_some() {
+                    println!("the isolated re-run of the saved case was terminated by signal {:?} (abort after a failed allocation under the address-space limit, or a stack overflow)", st.signal());
+                    println!("VIOLATION property={} replay={}", ctx.property, file.display());
+                    return 1;
+                }
+                println!("INCONCLUSIVE property={} watchdog fired but the isolated re-run finished in {:.1}s replay={}", ctx.property, t0.elapsed().as_secs_f64(), file.display());
+                return 2;
+            }
+            Ok(None) => {
+                if rss_mb(Some(child.id())) > rss_limit_mb() {
+                    let _ = child.kill();
+                    let _ = child.wait();
+                    println!("the isolated re-run of the saved case allocated more than {} MiB (the input is a few kilobytes at most)", rss_limit_mb());
+                    println!("VIOLATION property={} replay={}", ctx.property, file.display());
+                    return 1;
+                }
+                if t0.elapsed() > Duration::from_secs(WATCHDOG_SECS) {
+                    let _ = child.kill();
+                    let _ = child.wait();
+                    println!("the isolated re-run of the saved case did not terminate within {}s", WATCHDOG_SECS);
+                    println!("VIOLATION property={} replay={}", ctx.property, file.display());
+                    return 1;
+                }
+                std::thread::sleep(Duration::from_millis(100));
+            }
+            Err(_) => return 2,
+        }
+    }
+}
+
 /// memory budget of one check process (MiB); normal use stays below 2 GiB
 pub fn rss_limit_mb() -> u64 {
     std::env::var("VERIF_RSS_LIMIT_MB").ok().and_then(|s| s.parse().ok()).unwrap_or(10_000)
@@ -214,41 +271,25 @@ pub fn start_watchdog(ctx: Arc<Ctx>) {
             }
             let path = ctx.write_replay(&stage, &kind, &case, if memory { "the checker exceeded its memory budget while this case was running (suspected unbounded allocation)" } else { "single case exceeded the watchdog limit (suspected hang)" }, "watchdog");
             if ctx.termination_is_property {
-                // isolated re-execution
+                // isolated re-execution: this process is *replaced* by a supervisor (exec), which frees
+                // whatever the suspect call has allocated and cannot be taken down by it
+                use std::os::unix::process::CommandExt;
                 let exe = std::env::current_exe().unwrap();
-                let mut child = std::process::Command::new(exe)
+                let err = std::process::Command::new(exe)
                     .arg(&ctx.property)
-                    .arg("--replay")
+                    .arg("--isolated")
                     .arg(&path)
-                    .stdout(std::process::Stdio::null())
-                    .stderr(std::process::Stdio::null())
-                    .spawn()
-                    .expect("spawn child");
-                let t0 = Instant::now();
-                loop {
-                    match child.try_wait() {
-                        Ok(Some(_)) => {
-                            println!("INCONCLUSIVE property={} watchdog fired but the isolated re-run finished in {:.1}s replay={}", ctx.property, t0.elapsed().as_secs_f64(), path.display());
-                            std::process::exit(2);
-                        }
-                        Ok(None) => {
-                            if rss_mb(Some(child.id())) > rss_limit_mb() {
-                                let _ = child.kill();
-                                println!("the isolated re-run of the saved case allocated more than {} MiB (the input is a few kilobytes at most)", rss_limit_mb());
-                                println!("VIOLATION property={} replay={}", ctx.property, path.display());
-                                std::process::exit(1);
-                            }
-                            if t0.elapsed() > Duration::from_secs(WATCHDOG_SECS) {
-                                let _ = child.kill();
-                                println!("the isolated re-run of the saved case did not terminate within {}s", WATCHDOG_SECS);
-                                println!("VIOLATION property={} replay={}", ctx.property, path.display());
-                                std::process::exit(1);
-                            }
-                            std::thread::sleep(Duration::from_millis(200));
-                        }
-                        Err(_) => std::process::exit(2),
-                    }
-                }
+                    .arg("--profile")
+                    .arg(&ctx.profile)
+                    .arg("--root")
+                    .arg(&ctx.root)
+                    .arg("--tier")
+                    .arg(if ctx.quick() { "quick" } else { "thorough" })
+                    .arg("--seed")
+                    .arg((ctx.seed as i64).to_string())
+                    .exec();
+                println!("INCONCLUSIVE property={} cannot start the isolated re-run: {}", ctx.property, err);
+                std::process::exit(2);
             } else {
                 println!("INCONCLUSIVE property={} {} replay={}", ctx.property, if memory { "suspected-unbounded-allocation" } else { "suspected-hang" }, path.display());
                 std::process::exit(2);
